@@ -93,7 +93,7 @@ def gen_call(rng, case_kind, ploidy, n_alt, sets, has_ps_key, exotic, pos, dense
 
 
 def gen_case(rng, scale=1, exotic=True):
-    n_contigs = rng.choice([1, 2, 2, 3])
+    n_contigs = rng.choice([1, 2, 2, 3, 3, 4])
     contigs = {f"chr{i + 1}": rng.randrange(3000, 20000) for i in range(n_contigs)}
     samples = [f"S{i + 1}" for i in range(rng.choice([1, 1, 2, 3]))]
     ploidy = rng.choice([2, 2, 2, 3, 4] + ([1, 5, 6] if exotic else []))
@@ -140,9 +140,13 @@ def gen_case(rng, scale=1, exotic=True):
         names = list(contigs)
         k = rng.randrange(1, len(names) + 1)
         pick = rng.sample(names, k)
+        if len(names) >= 3 and rng.random() < 0.35:     # skip the first chromosome(s): seen ≠ processed when the exit test runs
+            pick = names[rng.randrange(1, len(names) - 1):]
+            if rng.random() < 0.5:
+                pick.reverse()
         if exotic:
-            if rng.random() < 0.25:
-                pick.insert(rng.randrange(len(pick) + 1), rng.choice(pick))      # a name given twice
+            if rng.random() < 0.3:       # a name given twice (in front: it is fetched again before the early exit can fire)
+                pick.insert(0 if rng.random() < 0.6 else rng.randrange(len(pick) + 1), rng.choice(pick))
             if rng.random() < 0.15:
                 pick.insert(rng.randrange(len(pick) + 1), "chrX")                # not in the file
             if rng.random() < 0.15:
@@ -164,4 +168,4 @@ def gen_case(rng, scale=1, exotic=True):
     return {"contigs": contigs, "samples": samples, "ploidy": ploidy, "kind": kind, "kinds": kinds, "records": records,
             "only_snvs": rng.random() < 0.3, "chromosomes": chroms,
             "sample": rng.choice(samples) if rng.random() < 0.3 else None, "exotic": exotic,
-            "indexed": (not unsorted_file) and rng.random() < 0.4, "chr_lengths": chr_lengths}
+            "indexed": (not unsorted_file) and rng.random() < (0.55 if chroms else 0.3), "chr_lengths": chr_lengths}
